@@ -16,6 +16,10 @@ type gen struct {
 	r  *core.Rand
 	vi int
 	k  int // per-tuple call counter, so that several fields of one tuple differ
+	// sizes, when set (concurrent phase), are the blob / raw-item lengths to
+	// walk through instead of the small boundary list: buffer-growth
+	// boundaries and block-sized payloads.
+	sizes []int
 }
 
 func (g *gen) pick(bound []uint64, max uint64) uint64 {
@@ -53,6 +57,9 @@ func (g *gen) hash28() []byte { return g.r.Bytes(28) }
 // blob: byte strings of boundary lengths, nil and empty included.
 func (g *gen) blob() []byte {
 	g.k++
+	if g.sizes != nil {
+		return g.r.Bytes(g.sizes[(g.vi+g.k)%len(g.sizes)])
+	}
 	lens := []int{0, -1, 1, 23, 24, 255, 256, 2000, 32}
 	i := g.vi + g.k
 	if g.vi < len(lens) {
@@ -125,7 +132,16 @@ func (g *gen) rawNode(depth int) *cborx.Node {
 	return cborx.T(24, cborx.B(r.Bytes(r.Intn(20))))
 }
 
-func (g *gen) raw() gcbor.RawMessage { return gcbor.RawMessage(g.rawNode(0).Encode()) }
+func (g *gen) raw() gcbor.RawMessage {
+	if g.sizes != nil {
+		g.k++
+		if n := g.sizes[(g.vi+g.k)%len(g.sizes)]; n > 64 {
+			// a block / tx / result sized item: one byte string of n bytes
+			return gcbor.RawMessage(cborx.B(g.r.Bytes(n)).Encode())
+		}
+	}
+	return gcbor.RawMessage(g.rawNode(0).Encode())
+}
 
 func (g *gen) raws(max int) []gcbor.RawMessage {
 	n := g.count(max)
